@@ -96,7 +96,7 @@ def gen_worker(cname, unroll=0, shard=(0, 1)):
     for pi, kind, exc, state in ctx.path_states:
         nm = '%s/%s/batch:path%d' % (prop, cname, pi)
         goals = by_group.get(pi, [])
-        fn = solve.write_batch(outdir, nm, state.pc, [], 4000)      # cover only: goals are faster asked one by one (measured)
+        fn = solve.write_batch(outdir, nm, state.pc, [], 1000)      # cover only: goals are faster asked one by one (measured)
         batches.append({'name': nm, 'file': fn, 'func': cname, 'path': pi, 'goals': []})
     return {'contract': cname, 'obligations': obs, 'covers': covers, 'batches': batches, 'npaths': ctx.npaths, 'warnings': ctx.warnings,
             'file': c.file, 'qualname': c.func, 'lines': list(ctx.lines), 'sha256': hashlib.sha256(ctx.source.encode()).hexdigest(),
@@ -242,7 +242,7 @@ def main(argv=None):
         return c, solve.cover(c['file'], 5 if args.tier == 'quick' else 20)
 
     def do_batch(b):
-        return b, solve.run_batch(b['file'], len(b['goals']), 4)
+        return b, solve.run_batch(b['file'], len(b['goals']), 1)
 
     with ThreadPoolExecutor(args.jobs) as tp:
         cover_res = list(tp.map(do_cover, covers))
